@@ -372,6 +372,12 @@ def main():
                             for b in st['batches']]
                 except Exception:
                     pass
+                if req.get('only_if_resolved') and result['can_simulate'] and \
+                        not result['diff_empty']:
+                    # what the evolve command does before executing anything
+                    from django_evolution.errors import EvolutionException
+                    raise EvolutionException(
+                        'The stored evolutions do not completely resolve all model changes.')
                 if req.get('execute', True) and (result['required'] or
                                                  not req.get('only_if_required')):
                     rec.emit('evolve_call')
